@@ -663,11 +663,41 @@ def _asrgb_case(rng):
     return dict(kind='as_rgb', shape=shape, chans=chans)
 
 
+def _eval_sepia(case):
+    """rgb2sepia / rgb2grey on integer-valued inputs OUTSIDE 0..255 (negative components, values above 255: int16/int32/float
+    images, out-of-gamut colours returned by xyz2rgb): sepia is the documented linear map clipped to 0..255 on BOTH sides"""
+    c = _colors()
+    vals = [int(v) for v in case['rgb']]
+    A = np.array(vals, dtype=np.float64).reshape(-1, 1, 3).astype(case['dtype'])
+    A = gen.relayout(A, case.get('layout', 'C'))
+    before = A.copy()
+    f = []
+    with warnings.catch_warnings():
+        warnings.simplefilter('ignore')
+        sep = np.asarray(c.rgb2sepia(A))
+    if not np.array_equal(before, A):
+        f.append(dict(kind='property', key='colors:input-modified', detail={}))
+    want = core.ints(core.drive(['c20 kind=sepiaq rgb=' + core.fmt_ints(vals)])[0]['sepia'])
+    if sep.shape != A.shape or sep.dtype != np.uint8:
+        f.append(dict(kind='property', key='rgb2sepia:shape-dtype', detail=dict(shape=list(sep.shape), dtype=str(sep.dtype))))
+    else:
+        g = [int(x) for x in sep.ravel()]
+        bad = [k for k, (a, b) in enumerate(zip(g, want)) if a != b]
+        if bad:
+            t = bad[0] // 3
+            f.append(dict(kind='property', key='rgb2sepia:linear-clipped', detail=dict(
+                rgb=vals[3 * t:3 * t + 3], got=g[3 * t:3 * t + 3], want=want[3 * t:3 * t + 3], dtype=case['dtype'])))
+    return dict(findings=f, nontrivial=bool(any(v < 0 or v > 255 for v in vals)), sig=('sepia', case['dtype'], hash(tuple(vals))),
+                n=len(vals) // 3, tags=dict(kind='sepia', dtype=case['dtype'], cls='out-of-range'))
+
+
 def evaluate(cases):
     out = []
     for c in cases:
         k = c.get('kind')
-        if k == 'rgb' or 'block' in c:
+        if k == 'sepia':
+            out.append(_eval_sepia(c))
+        elif k == 'rgb' or 'block' in c:
             out.append(_eval_rgb(c))
         elif k == 'ramp':
             out.append(_eval_ramp(c))
@@ -840,6 +870,13 @@ def cases(rng, tier):
         vals = sorted({rng.uniform(0, 255) if rng.random() < 0.7 else rng.uniform(KNEE - 0.5, KNEE + 0.5) for _ in range(200)})
         vals = [v for v in vals if abs(v / 255.0 - 0.04045) > 1e-6]
         out.append(dict(kind='ramp', ch=i % 3, fixed=[float(x) for x in fixed], vals=vals, integer=False, dtype='float64'))
+    # sepia on components outside 0..255 (both signs)
+    for i in range(dict(quick=12, thorough=120, search=40)[tier]):
+        m = rng.randint(1, 40)
+        pool = [-1, -10, -300, -32768, 0, 1, 255, 256, 300, 32767, 128]
+        tri = [rng.choice(pool + [rng.randint(-400, 600)]) for _ in range(3 * m)]
+        out.append(dict(kind='sepia', rgb=tri, dtype=rng.choice(['int16', 'int32', 'int64', 'float64', 'float32']),
+                        layout=rng.choice(['C', 'C', 'F', 'strided'])))
     # random triples, several dtypes
     nt = dict(quick=40, thorough=400, search=160)[tier]
     for i in range(nt):
@@ -893,7 +930,7 @@ def cases(rng, tier):
 
 
 def shrink(case):
-    if case.get('kind') == 'rgb' or 'block' in case:
+    if case.get('kind') in ('rgb', 'sepia') or 'block' in case:
         tri = case['rgb']
         n = len(tri) // 3
         if n > 1:
